@@ -250,6 +250,10 @@ func getFieldValueByNameFromStruct(identName string, structValue reflect.Value) 
 	st := structValue.Type()
 
 	for fn := 0; fn < structValue.NumField(); fn++ {
+		if !st.Field(fn).IsExported() {
+			continue
+		}
+
 		structFieldName := st.Field(fn).Name
 		if strings.EqualFold(structFieldName, identName) {
 			out = structValue.Field(fn).Interface()
